@@ -2,10 +2,17 @@
 
 package manager
 
-import "github.com/kitex-contrib/xds/core/xdsresource"
+import (
+	discoveryv3 "github.com/envoyproxy/go-control-plane/envoy/service/discovery/v3"
+
+	"github.com/kitex-contrib/xds/core/xdsresource"
+)
 
 // verifYield is a no-op unless the package is built with the `verif` tag.
 func verifYield(int, xdsresource.ResourceType, string) {}
 
 // verifSender is a no-op unless the package is built with the `verif` tag.
 func verifSender(*xdsClient, int) {}
+
+// verifProduced is a no-op unless the package is built with the `verif` tag.
+func verifProduced(chan *discoveryv3.DiscoveryRequest, int) {}
